@@ -19,6 +19,15 @@ PRELUDE = """(struct vf-cell (v) #:mutable)
 (define (fresh-box x) (box x))"""
 
 
+# the same workload under the engine's *own* collection path: churn makes cyclic garbage (which the cheap weak pass cannot
+# free) and then asks for a collection with the script-visible (#%gc-collect) - Heap::value_collection / vector_collection
+# themselves, not the hook's forced collection - and nothing is poisoned, so the oracle is the freed-slot monitor H-slot plus
+# the output.  ((#%gc-collect) doubles the slot vectors on every call; a program calls churn a handful of times.)
+PRELUDE_NATURAL = """(struct vf-cell (v) #:mutable)
+(define (churn n) (let loop ((i 0)) (if (< i n) (begin (let ((b (box i))) (set-box! b b)) (let ((v (vector i i))) (vector-set! v 0 v)) (vf-cell i) (loop (+ i 1))) (begin (#%gc-collect) 'churned))))
+(define (fresh-box x) (box x))"""
+
+
 def templates(r):
     a, b, c = r.randint(1, 50), r.randint(51, 99), r.randint(100, 150)
     n = r.choice([3, 8, 20])
@@ -39,6 +48,18 @@ def templates(r):
     T.append(("c-closure-in-container", "(define holder (vector (let ((x %s)) (lambda (v) %s %s))))\n(churn %d)\n(verif-emit ((vector-ref holder 0) %d))\n(churn %d)\n(verif-emit ((vector-ref holder 0) %d))" % (
         M(a), WR("x", "v"), RD("x"), n, b, n, c)))
     T.append(("c-assigned-captured-variable", "(define (make-counter) (let ((count %d)) (lambda () (set! count (+ count 1)) (churn %d) count)))\n(define c1 (make-counter))\n(define c2 (make-counter))\n(verif-emit (list (c1) (c1) (c2) (churn %d) (c1) (c2)))" % (a, n, n)))
+    T.append(("c-running-instances-of-one-lambda", """(define factory (box #f))
+(define (snoc below value) (cons value below))
+(define (make-worker k) (let ((acc k)) (lambda (depth) (set! acc (+ acc 1)) (snoc (if (> depth 0) (((unbox factory) (+ k 100)) (- depth 1)) (begin (churn %d) (list))) acc))))
+(set-box! factory make-worker)
+(verif-emit (((unbox factory) %d) %d))""" % (n, a, r.choice([2, 4, 6]))))
+    T.append(("m-closure-rooted-by-the-host-only", """(define (make-counter) (let ((count %d)) (lambda () (set! count (+ count 1)) count)))
+(define counter (#%%closure->boxed-function (make-counter)))
+(verif-emit (list (counter) (churn %d) (counter) (churn %d) (counter) (churn %d) (churn %d) (counter)))""" % (a, n, n, n, n)))
+    T.append(("d-continuation-non-top-frame-closure", """(define kept #f)
+(define rounds 0)
+(define (make-worker k) (let ((acc k)) (lambda (thunk) (set! acc (+ acc 1)) (let ((r (thunk))) (set! acc (+ acc 10)) (list acc r)))))
+(verif-emit (let ((res ((make-worker %d) (lambda () ((make-worker %d) (lambda () (call/cc (lambda (c) (set! kept c) 0)))))))) (churn %d) (set! rounds (+ rounds 1)) (if (< rounds 3) (begin (churn %d) (kept rounds)) (list res rounds))))""" % (a, b, n, n)))
     T.append(("d-open-continuation", "(verif-emit (let ((x %s)) (+ 1 (call/cc (lambda (k) (churn %d) (k %s))))))" % (M(a), n, RD("x"))))
     T.append(("d-closed-continuation-reentered", """(define kept #f)
 (define rounds 0)
@@ -144,8 +165,10 @@ def main(tier):
     cads = CADENCES + [{"gc_every": 5, "gc_jitter": core.seed() * 7919 + 1}]
     if tier == "quick":
         cads = [CADENCES[0], CADENCES[2], cads[-1]]
+    cads = cads + [{"natural": True}]
     classes_seen = {}
     total_forced = 0
+    total_natural = 0
     for cname, env, opts in configs:
         for cad in cads:
             cases = []
@@ -154,7 +177,10 @@ def main(tier):
                     continue
                 c = {"id": "p%d" % i, "units": units, "timeout_ms": 120000, "events": False, "no_vals": True}
                 c.update(opts)
-                c.update(cad)
+                if cad.get("natural"):
+                    c["units"] = [u.replace(PRELUDE, PRELUDE_NATURAL) for u in units]
+                else:
+                    c.update(cad)
                 cases.append(c)
             results, meta = core.run_cases(cases, env=env, tag="c04")
             for e in meta["harness_errors"]:
@@ -167,6 +193,10 @@ def main(tier):
                 cnt = res.get("counters") or {}
                 forced = cnt.get("FORCED_COLLECTIONS", 0)
                 total_forced += forced
+                if cad.get("natural"):
+                    total_natural += cnt.get("FULL_COLLECTIONS", 0)
+                    if cnt.get("FULL_COLLECTIONS", 0) >= 1:
+                        rep.nontrivial((units[-1], "natural", cname))
                 if forced >= 10:
                     rep.nontrivial((units[-1], json.dumps(cad), cname))
                     classes_seen[name] = classes_seen.get(name, 0) + 1
@@ -201,11 +231,12 @@ def main(tier):
                                     "program": units[-1][len(PRELUDE):][:500], "emitted": ref[-1][1]})
     rep.note("root_classes_observed_across_>=10_collections", classes_seen)
     rep.note("forced_full_collections_total", total_forced)
+    rep.note("natural_full_collections_total", total_natural)
     missing = sorted(set(n for (n, _), _ in keep) - set(classes_seen))
     if missing:
         rep.inconclusive_note("root classes never observed across >= 10 collections: %s" % missing, floor=len(missing) > 3)
     rep.assumptions += ["forced collections run through the engine's own mark / stop-the-world code (hook H-gc) and then poison the "
-                        "slots left unreachable", "host-rooted values and thread-local slots are not covered by this workload"]
+                        "slots left unreachable", "of the host's ways to root a value only #%closure->boxed-function is exercised (RootedSteelVal of an embedding program is not)"]
     return rep.finish()
 
 
